@@ -72,6 +72,7 @@ func (r *Eval) run(ctx context.Context) (ret Object, err error) {
 	// Always check whether context is done before running VM because
 	// parser and compiler may take longer than expected or context may be
 	// canceled for any reason before run, so use two selects.
+	verifPoint("eval.pre_select", r.VM)
 	select {
 	case <-ctx.Done():
 		r.VM.Abort()
@@ -79,11 +80,14 @@ func (r *Eval) run(ctx context.Context) (ret Object, err error) {
 	default:
 		go func() {
 			defer close(doneCh)
+			verifPoint("eval.goroutine_start", r.VM)
 			ret, err = r.VM.Run(r.Globals, r.Locals...)
 		}()
 
+		verifPoint("eval.started", r.VM)
 		select {
 		case <-ctx.Done():
+			verifPoint("eval.ctx_done", r.VM)
 			r.VM.Abort()
 			<-doneCh
 			if err == nil {
